@@ -5,6 +5,12 @@ import (
 	"testing"
 )
 
+func TestMain(m *testing.M) {
+	code := m.Run()
+	cleanupCLI()
+	os.Exit(code)
+}
+
 func TestC01(t *testing.T) { runProp(t, "C01") }
 func TestC02(t *testing.T) { runProp(t, "C02") }
 func TestC03(t *testing.T) { runProp(t, "C03") }
@@ -15,7 +21,9 @@ func TestC09(t *testing.T) { runProp(t, "C09") }
 func TestC10(t *testing.T) { runProp(t, "C10") }
 func TestC11(t *testing.T) { runProp(t, "C11") }
 func TestC12(t *testing.T) { runProp(t, "C12") }
+func TestC13(t *testing.T) { runProp(t, "C13") }
 func TestC14(t *testing.T) { runProp(t, "C14") }
+func TestC15(t *testing.T) { runProp(t, "C15") }
 func TestC16(t *testing.T) { runProp(t, "C16") }
 func TestC18(t *testing.T) { runProp(t, "C18") }
 func TestC19(t *testing.T) { runProp(t, "C19") }
@@ -35,6 +43,9 @@ func TestReplay(t *testing.T) {
 		t.Fatalf("HARNESS-ERROR: unknown property %q in %s", c.Prop, path)
 	}
 	if err := runChecked(p, c, nil); err != nil {
+		if _, ok := err.(harnessError); ok {
+			t.Fatalf("%v", err)
+		}
 		t.Fatalf("REPLAY-VIOLATION property=%s: %v", c.Prop, err)
 	}
 }
